@@ -5,7 +5,7 @@ from vcheck import *
 PROPS = ["C11"]
 PACKAGES = ["drv_net"]
 META = {"C11": {
-    "engine": "distance", "level": "model_checking",
+    "engine": "distance", "more_engines": ["challenge"], "level": "model_checking",
     "technique": "executable TLA+ specification of the XOR metric over SHA-256 digests (byte-wise Bitwise xor, lexicographic order); TLC checks the metric laws on a small digest universe, enumerates the input partition, and is the oracle over recorded real calls",
     "text": "Every recorded call of NetworkAddress::distance / convert_distance_to_u256 (both directions, typed and raw-key forms), sort_peers_by_address, the replication range filter and "
             "Node::calculate_get_closest_peers is compared by TLC with the specification's value computed from digests the driver derives itself (sha2), over the TLC-enumerated partition "
